@@ -61,6 +61,9 @@ func genGsm7(g *genCtx) {
 	n := 0
 	emit := func(c Case) {
 		if g.mine(n) {
+			if k := caseStr(c, "k"); n%3 == 1 && (k == "seq" || k == "text" || k == "septets") {
+				c["pre"] = 1 + n/3 // the call follows a series of refused calls (afterRefusals)
+			}
 			g.emit(c)
 		}
 		n++
@@ -224,6 +227,9 @@ func guardT(f func(), site string) (panicked, hung bool) {
 }
 
 func runGsm7(c Case, tr *Tracer) {
+	if k := caseInt(c, "pre"); k > 0 {
+		afterRefusals(k)
+	}
 	switch caseStr(c, "k") {
 	case "seq":
 		s := caseBytes(c, "s")
